@@ -141,8 +141,12 @@ def gen_value(t, ty):
     if ty == "double":
         return gen_double(t)
     if ty == "string":
-        n = t.wpick([(0, 3), (1, 3), (2, 3), (5, 3), (17, 3), (40, 2), (63, 1), (64, 1), (65, 1), (255, 1), (256, 1),
-                     (257, 1), (1024, 1), (4097, 0.5)], "strlen")
+        if t.bool(0.7, "short-string"):
+            n = t.pick([0, 1, 2, 5, 17, 40], "strlen")
+        else:
+            # around every plausible fixed buffer size: powers of two and round decimal numbers, -1 / 0 / +1
+            n = t.pick([8, 16, 32, 64, 80, 100, 128, 200, 255, 256, 260, 500, 512, 1000, 1024, 2000, 2048, 4096, 8192],
+                       "strlen-edge") + t.pick([0, -1, 1], "strlen-off")
         if n > 65:
             # long strings: a repeating pattern (buffer-size slips depend on length, not on content)
             pat = bytes(1 + t.choose(255, "strbyte") for _ in range(7))
